@@ -1,6 +1,7 @@
 import Proofs.FilePieceMain
 import Proofs.FilePieceRC
 import Proofs.FilePieceTokenize
+import Proofs.FilePieceNum
 import Generated.C18
 /-!
 # C18 — Text input is transparent to buffering, mapping, compression and read sizes
@@ -226,13 +227,29 @@ theorem toyGrammar_ok : GrammarOK toyGrammar where
       · simp at h; simp; omega
       · simp at h
   prefix_det := by
-    intro tok sp junk _ hs
+    intro tok sp junk hne _ _
     cases tok with
-    | nil =>
-      have : sp ≠ 48 := by intro hc; subst hc; simp [isSpace] at hs
-      simp [toyGrammar, this]
+    | nil => exact absurd rfl hne
     | cons a t => simp [toyGrammar]
   empty := rfl
+
+/-- the grammars behind `ReadLong` / `ReadULong` (strtol / strtoul + kenlm's error test, as modelled in
+`Model/FilePiece.lean` and compared with the real parsers on every generated number) meet the hypotheses -/
+theorem integer_grammars_ok : GrammarOK gLong ∧ GrammarOK gULong := ⟨gLong_ok, gULong_ok⟩
+
+/-- Finding L in the model: kenlm's floating-point `ParseNumber` (converter + NaN test on the whole string handed
+to it) is *not* a function of the token: "NaN" alone parses, "NaN 1" (the same token followed by more of the
+window) throws.  So `GrammarOK.prefix_det` fails for it exactly on NaN tokens, and the window placement decides
+(known finding `nan-token-window-end`; replayed on the real code by the check's directed case). -/
+theorem nan_not_prefix_determined :
+    gFloat false [78, 97, 78] = some (nanCode, 3) ∧ gFloat false ([78, 97, 78] ++ 32 :: [49]) = none ∧
+    ¬ GrammarOK (gFloat false) := by
+  have h1 : gFloat false [78, 97, 78] = some (nanCode, 3) := by decide
+  have h2 : gFloat false ([78, 97, 78] ++ 32 :: [49]) = none := by decide
+  refine ⟨h1, h2, fun h => ?_⟩
+  have := h.prefix_det [78, 97, 78] 32 [49] (by decide) (by decide) (by decide)
+  rw [h1, h2] at this
+  exact absurd this (by decide)
 
 def env0 : Env := { cfg := { page := 4, fixH := true, fixI := true }, bytes := [97, 98, 32, 99, 100, 101, 102, 103, 104, 105, 106, 107, 108, 10],
                     orc := fun _ => 3 }
